@@ -251,17 +251,21 @@ pub fn run_c16(tier: &str) -> Outcome {
     // position-distinct bytes so that a mix-up is visible
     let mut dom: Vec<Case> = vec![];
     for len in 0..=max_len {
-        let b: Vec<u8> = (0..len).map(|i| (0x10 + i) as u8).collect();
-        let reps: &[&'static str] = if len <= 8 { &["from_slice", "Bytes+padding", "Vector"] } else { &["from_slice", "Vector"] };
-        for r in reps {
-            dom.push(Case { bytes: b.clone(), rep: r });
+        // position-distinct bytes, and the two uniform contents (all 00: looks like unused storage; all FF)
+        let mut contents: Vec<Vec<u8>> = vec![(0..len).map(|i| (0x10 + i) as u8).collect(), vec![0u8; len], vec![0x7Fu8; len]];
+        contents.dedup();
+        for b in contents {
+            let reps: &[&'static str] = if len <= 8 { &["from_slice", "Bytes+padding", "Vector"] } else { &["from_slice", "Vector"] };
+            for r in reps {
+                dom.push(Case { bytes: b.clone(), rep: r });
+            }
         }
     }
     let n = dom.len();
     let acc = super::par_cases(n * n, |k, acc| {
         let (ca, cb0) = (&dom[k / n], &dom[k % n]);
-        // make b's bytes distinct from a's
-        let cb = Case { bytes: cb0.bytes.iter().map(|x| x.wrapping_add(0x80)).collect(), rep: cb0.rep };
+        // make b's bytes distinct from a's (00 stays 00: an all-zero operand is still an operand)
+        let cb = Case { bytes: cb0.bytes.iter().map(|x| if *x == 0 { 0 } else { x.wrapping_add(0x80) }).collect(), rep: cb0.rep };
         let (Some(a), Some(b)) = (ca.build(), cb.build()) else { return };
         acc.evaluations += 1;
         acc.nontrivial += 1;
@@ -287,7 +291,7 @@ pub fn run_c16(tier: &str) -> Outcome {
             acc.sample(json!({"a": ref_print(&ca.bytes), "a_representation": ca.rep, "b": ref_print(&cb.bytes), "b_representation": cb.rep}));
         }
     });
-    let rule = format!("every pair (a,b) of byte strings of length 0..={max_len} in every representation (from_slice, Hex::Bytes with non-zero padding, Hex::Vector), position-distinct bytes; oracle: bytes(a.concat(b)) == a ++ b, a and b unchanged in bytes and representation. distinct_nontrivial = distinct (a,b) pairs");
+    let rule = format!("every pair (a,b) of byte strings of length 0..={max_len} in every representation (from_slice, Hex::Bytes with non-zero padding, Hex::Vector), three contents per length (position-distinct bytes, all 00, all 7F/FF); oracle: bytes(a.concat(b)) == a ++ b, a and b unchanged in bytes and representation. distinct_nontrivial = distinct (a,b) pairs");
     super::outcome("C16", tier, "exploration", &rule, acc, true, json!({}), t0.elapsed().as_secs_f64(), vec![], vec![])
 }
 
